@@ -18,7 +18,8 @@ CHECKS = {
              "through an independent model of the transform) over seeded trees whose content classes are "
              "surrounded by same-length decoys differing in one byte at stage-threshold offsets, across 7 hash "
              "functions, cache cold/warm, pinned SSD/HDD/unknown disk kind, prefix/suffix sizes, transforms that "
-             "shrink/keep/expand, thread pools, ext4 and tmpfs. Exploration is the right level: the property "
+             "shrink/keep/expand, thread pools, ext4 and tmpfs, and (8% of the trees) two tmpfs file systems mounted for the case "
+             "whose files share inode numbers. Exploration is the right level: the property "
              "quantifies over inputs x configurations and the oracle is exact on each execution.",
         note=COMMON_NOTE + "Hash collisions would be reported as violations. Files are <= 300 KB (the 64 MiB HDD suffix "
              "threshold is reached through the SSD pin).",
@@ -29,7 +30,8 @@ CHECKS = {
         text="The reported groups must equal, as a set of path sets, the partition of the scanned files by bytes "
              "(transform output when --transform) filtered by the documented replica rule (--rf-over/--rf-under/"
              "--unique, -H), with no path listed twice, no unselected path, and no hash-failure warning on a "
-             "healthy tree; same workload dimensions as C01 plus classes of 1..N across roots and hard links.",
+             "healthy tree; same workload dimensions as C01 plus classes of 1..N across roots and hard links, roots given "
+             "repeatedly / re-spelled / overlapping, and paths whose components concatenate to the same string.",
         note=COMMON_NOTE + "Plain selection only (selection semantics are C09's job).",
         design="4/C03"),
     "C02": dict(
@@ -38,7 +40,8 @@ CHECKS = {
         text="The real two-process pipeline (fclones group > R; fclones remove|link|link --soft|dedupe|move < R) runs on "
              "generated trees with hard-link sets, -S symlinks, --isolate roots, shell-hostile and non-UTF-8 names "
              "(incl. names with leading/trailing white space next to same-length decoys named like the trimmed name), "
-             "text and JSON reports and random dedupe options. A model-free oracle compares full inventories: no "
+             "text and JSON reports and random dedupe options, move targets that already hold entries, root names that are string "
+             "prefixes of each other, the dedupe command run from another working directory. A model-free oracle compares full inventories: no "
              "content digest disappears from regular files, at least max(1,n) replicas of every group are byte-, "
              "inode- and mtime-identical, nothing outside the reported groups changes, linked/cloned paths read back "
              "their bytes, moved bytes exist under DIR. `dedupe` is exercised natively (EOPNOTSUPP: nothing may change) "
@@ -50,7 +53,8 @@ CHECKS = {
     "C08": dict(
         category="exploration",
         technique="runtime monitoring: real dedupe command lines vs a reference partition model; bash-decoded dry-run script and shim-logged real run",
-        text="For generated groups (2..8 files, hard-link subsets, 1-3 roots, tied/distinct a/m/c/b-times and nesting) and real "
+        text="For generated groups (2..8 files; in 8% of the cases one group of 34..140 files with 2-3 distinct time stamps; names "
+             "that are not valid UTF-8 with patterns built from their lossy form; hard-link subsets, 1-3 roots, tied/distinct a/m/c/b-times and nesting) and real "
              "command lines (12 priorities single and chained, --name/--path/--keep-name/--keep-path globs, n given by -n, "
              "--rf-over or inherited, --isolate/-H inherited from the report header, text and JSON reports) the set of paths "
              "the --dry-run script names (decoded by bash) and the set of paths the real run processes (LD_PRELOAD event log "
@@ -65,7 +69,8 @@ CHECKS = {
              "constructs, as absolute and as base-dir-relative patterns, and compares Pattern::matches with an independent "
              "backtracking matcher on ~900 paths (incl. newline, non-ASCII, regex metacharacters); for every matching path "
              "all ancestor directories must pass matches_partially / PathSelector::matches_dir (conservative pruning), "
-             "excluded-directory pruning must only hide excluded paths, and --ignore-case is swept. The bounded part is "
+             "excluded-directory pruning must only hide excluded paths, and --ignore-case is swept (matching, and pruning outside the "
+             "class of the known finding D6). The bounded part is "
              "exhaustive; longer globs are random.",
         note=COMMON_NOTE + "Reference matcher written from the README table only. Undefined constructs are skipped. Known finding "
              "D6 (multi-byte literal prefix) is listed in known_findings.json.",
@@ -73,7 +78,7 @@ CHECKS = {
     "C17": dict(
         category="exploration",
         technique="runtime monitoring at library level: bounded-exhaustive round trips through fclones' quote/split and through bash itself",
-        text="Every string of length <=4 over a 21-symbol alphabet of troublesome bytes (204 204 strings), all lists of <=3 "
+        text="Every string of length <=4 over a 24-symbol alphabet of troublesome bytes (incl. CR, NBSP, U+3000), all lists of <=3 "
              "one-symbol strings (thorough: all pairs of strings of length <=2) and random strings/lists up to 4 KiB are quoted "
              "with arg::quote / arg::join (verif_api hook); fclones' own splitter and bash (scripts of `printf '%s\\0' ...` "
              "lines) must both return exactly the original bytes; panics are caught and reported. CLI level: the "
@@ -89,7 +94,7 @@ CHECKS = {
              "16-symbol alphabet of troublesome bytes and random strings up to 4 KiB is placed as absolute/relative path in "
              "first, middle and last position of groups, as base directory and as command argument; text and JSON reports "
              "are written and read back with open_report/read_header/read_groups and compared field by field (paths as "
-             "bytes, timestamp at ms). Every byte-prefix of small multi-group reports must be rejected or yield only "
+             "bytes, timestamp at ms, lengths and sizes up to u64::MAX). Every byte-prefix of small multi-group reports must be rejected or yield only "
              "unaltered leading groups. At CLI level real `group` reports over hostile names (full and cut at random points) "
              "are piped into `remove --dry-run` and the paths bash decodes from the script must be listed in the report.",
         note=COMMON_NOTE + "Paths are compared after fclones' own Path normalisation. The bounded part is exhaustive.",
@@ -105,7 +110,9 @@ CHECKS = {
              "released, every acquisition completes; Miri reports deadlocks (lost wake-ups), data races and UB. Every thread "
              "is bounded so a lost wake-up is a deadlock, not a livelock. The number of distinct event orders seen per "
              "scenario is measured. A native release build runs the same monitors with 2..64 threads under a watchdog with a "
-             "quiescence test.",
+             "quiescence test. In situ: `group` under a low RLIMIT_NOFILE with far more hashing threads than descriptors (and "
+             "zero-sized = auto pools) must finish, never hit EMFILE, and keep the number of simultaneously open tree files "
+             "(interposer log) within the permits.",
         note="Exploration of interleavings, not exhaustion: a seeded sample under Miri's scheduler (quick 8 seeds x 3 rates x 54 "
              "scenarios; thorough 96 seeds x 216 scenarios). Trusted base: Miri's model of std Mutex/Condvar; hook H4 only "
              "adds notify_all/count accessors.",
@@ -114,7 +121,7 @@ CHECKS = {
         category="exploration",
         technique="runtime monitoring: before/after inventory equality + LD_PRELOAD syscall log with zero mutating calls on the tree",
         text="`fclones group` runs in every transform I/O mode (stdin->stdout, $IN, $IN+$OUT, --in-place, --in-place --no-copy "
-             "and --no-copy with helper programs that only read, ignore or fail), with --cache, -o, all formats and pinned disk "
+             "and --no-copy with helper programs that only read, ignore or fail; a program that leaves FILE.bak next to its input), with --cache, -o, all formats and pinned disk "
              "kinds, and every dedupe operation runs with --dry-run and random options, on generated trees (hard links, "
              "symlinks, hostile names, ext4 and tmpfs). Oracle 1: the full inventory (paths, bytes, link structure, inode, mode, "
              "mtime_ns) is identical before and after, $TMPDIR is empty afterwards, the cache dir holds only fclones/. "
@@ -140,17 +147,20 @@ CHECKS = {
         category="fault_enumeration",
         technique="fault injection and crash-point enumeration with an LD_PRELOAD interposer; state-invariant oracle on the resulting tree",
         text="For each scenario (remove / link / link --soft / dedupe with emulated FICLONE / move x small trees with hostile "
-             "names x text/JSON report) a recording run numbers the mutating libc calls on the tree; then exhaustively, each on "
+             "names x text/JSON report; move to the same or to another file system, with or without a foreign file at one "
+             "destination) a recording run numbers the mutating libc calls on the tree; then exhaustively, each on "
              "a tree restored with cp -a: SIGKILL before call k for every k (covers 'just after k-1'), call k failing with each "
              "of EIO/ENOSPC/EXDEV/EPERM/EOPNOTSUPP/EACCES, and pairs (call k fails and the j-th following call, j=1..4, fails "
              "too, i.e. the roll-back fails); sampled kills with the default thread pool. The oracle is a state invariant valid "
              "at any instant: each processed path still has its bytes at its path, or (crash / failed roll-back) under a temp "
-             "sibling, or is a completed link/clone/copy (move: at the target); retained files untouched; nothing else changed; "
+             "sibling, or is a completed link/clone/copy (move: at the target); retained files and files already in the move target "
+             "untouched; nothing else changed; "
              "after a handled failure: restored, warned, and 'Processed N' equals what the tree shows.",
         note="Kill and failure instants are libc call boundaries (a kill inside a system call is not modelled); power-loss / "
              "write-back ordering is out of reach; FICLONE success is emulated by the shim. A case whose planned fault does not "
              "fire is inconclusive, never a pass. A clean-up failure after a completed replacement may leave the temp sibling "
-             "if 'Failed to remove temporary' is logged (the replacement is already complete).",
+             "if 'Failed to remove temporary' is logged (the replacement is already complete). EPERM on a sendfile that follows a "
+             "successful one is not generated (the kernel cannot do that and std::fs::copy asserts it).",
         design="4/C05"),
     "C18": dict(
         category="exploration",
@@ -166,7 +176,7 @@ CHECKS = {
     "C20": dict(
         category="exploration",
         technique="runtime monitoring: a foreign process holds fcntl locks; inventory + syscall log + drop model",
-        text="A helper process holds POSIX write or read locks on chosen droppable members (controls: locks on retained "
+        text="A helper process holds POSIX write or read locks (whole file, first byte, a record inside the file or past its end) on chosen droppable members (controls: locks on retained "
              "members, locks released before the run); every operation runs with and without --no-lock on the real report. "
              "Locked inodes' paths must be untouched and reported ('Failed to lock'), all other droppable files processed "
              "exactly as the reference model says, the processed count must exclude the locked ones; with --no-lock they are "
@@ -180,10 +190,12 @@ CHECKS = {
              "stat / open (extent-query vs hashing, incl. the O_NOATIME retry) / read / opendir / readdir / FIEMAP calls of a "
              "scenario tree (hard-link sets, classes that leave at the prefix, suffix and content stage, nested directories); "
              "then one run per (entry, call position, errno in EACCES/EIO/ENOENT) fails exactly that call, under six "
-             "configurations (disk kind pinned ssd/hdd/unknown, ext4/tmpfs, thread pools); thorough adds pairs of faults on two "
+             "configurations (disk kind pinned ssd/hdd/unknown, ext4/tmpfs, thread pools, the tree given as one root or as a list "
+             "of files and directories on --stdin, whose own stat faults are included); thorough adds pairs of faults on two "
              "files and more scenarios. The run must exit 0 with a complete report equal to the reference partition of the tree "
              "without the entry (subtree for a directory; entries after a failed readdir are don't-care; a failed extent query "
-             "changes nothing) and a warning must name the entry unless it vanished (ENOENT).",
+             "changes nothing, nor does a failed stat whose result was not needed: the report then equals the fault-free one) and a "
+             "warning must name the entry unless it vanished (ENOENT).",
         note="Faults are at libc call granularity. Cases whose fault did not fire (the call sequence varies with the schedule for "
              "hard-linked files) are inconclusive and reported as such. Trusted base as for C03.",
         design="4/C15"),
@@ -192,7 +204,8 @@ CHECKS = {
         technique="runtime monitoring: real `group` runs vs the documented replica-counting rule; metamorphic re-spelling of the roots",
         text="Trees with hard links and file symlinks inside and across 1..4 roots are grouped under every combination of "
              "--rf-over k / --rf-under k / --unique with -H, --isolate, -S and a transform; the reported groups must equal the "
-             "documented replica rule applied to the byte partition (README 'Handling links'; its 4-hard-link table is case 0). "
+             "documented replica rule applied to the byte partition (README 'Handling links'; its 4-hard-link table is case 0); "
+             "30% of the multi-root trees use root names that are string prefixes of each other. "
              "Each tree is grouped again with the roots spelled as ./x, x/, y/../x, through a directory symlink, absolute, and "
              "from another working directory with --base-dir: every spelling must give the same groups.",
         note=COMMON_NOTE + "Overlapping roots under --isolate are undocumented and not generated; -H together with -S is excluded.",
@@ -205,13 +218,15 @@ CHECKS = {
              "--stdin, CPU affinity of 1 and 2 cores, and seeded jitter injected by hook H3 inside the hashing tasks and before "
              "the result channel (body must be identical); 7 hash functions, --max-prefix-size/--max-suffix-size, pinned disk "
              "kind, cache cold/warm (partition must be identical); a third of the trees add .gitignore files and file/directory "
-             "symlinks and run with --follow-links (several routes to one file). The number of distinct hash-completion orders observed per "
+             "symlinks and run with --follow-links (several routes to one file); a quarter of the others use an external --transform "
+             "over files sharing base names. The number of distinct hash-completion orders observed per "
              "tree is measured from the event hook. A run that exceeds a generous watchdog is a violation only if the process is "
              "provably quiescent (all threads asleep, no CPU progress, no children; gdb backtrace recorded), otherwise "
              "inconclusive. Thorough: 40+40 workloads on -Zsanitizer=thread (build-std) and -Zsanitizer=address builds; a report "
              "whose racing/faulting access is in fclones' own code is a violation, dependency-only reports are counted.",
         note=COMMON_NOTE + "TSan cannot model crossbeam's fence-based code (suppressed) and reports frees inside sled's own Arc; "
-             "those are counted as dependency-only noise. A clean sanitizer run is 'no report on these executions', not memory safety.",
+             "those are counted as dependency-only noise. Known finding D32 (with -L the selection of a file reachable by several "
+             "routes depends on the schedule) is recognised through C09's reference walk and listed in known_findings.json. A clean sanitizer run is 'no report on these executions', not memory safety.",
         design="4/C13"),
     "C14": dict(
         category="exploration",
@@ -231,7 +246,8 @@ CHECKS = {
              "a sleep: after the scan, after file X's prefix/suffix/content hash while others are pending, after all hashing "
              "but before the report is written, or after `group` exited. Ten edit kinds (same/different-length rewrite, append, "
              "truncate, delete, delete+recreate, replace by directory / dangling symlink / symlink to a fresh file, touch) on "
-             "1..all members of a group, then each of the five operations on the text or JSON report. The inventory taken just "
+             "1..all members of a group, then each of the five operations on the text or JSON report, in time zones east and west "
+             "of UTC, with the length comparison on or off (--transform report, --no-check-size). The inventory taken just "
              "before the dedupe command is compared with the one after: no content held by a regular file may disappear and "
              "after link / link --soft / dedupe every regular file reads back the same bytes.",
         note=COMMON_NOTE + "Outside the guarantee and never generated: mtime-preserving replacement, and edits closer than one kernel "
@@ -242,7 +258,7 @@ CHECKS = {
         category="exploration",
         technique="runtime monitoring: real `group --rf-over 0` listings vs a three-valued reference walk",
         text="Generated trees (nesting 0..6, hidden entries, .gitignore/.fdignore, relative/absolute/dangling/cyclic/cross-device "
-             "symlinks, directory names with regex metacharacters, spaces and non-ASCII text) are scanned with random "
+             "symlinks, links named like directories-only ignore rules, directory names with regex metacharacters, spaces and non-ASCII text) are scanned with random "
              "combinations of --depth, --hidden, --no-ignore, -L, -S, --min/--max, --name/--path/--exclude (globs or a regex "
              "subset, absolute or cwd-relative, --ignore-case), --one-fs, overlapping/repeated roots and unusual working "
              "directories. The listed paths must contain every 'must' path of an independent reference walk and nothing outside "
@@ -256,9 +272,9 @@ CHECKS = {
         technique="runtime monitoring: cached vs uncached differential runs over edit histories, cache hits counted through the event hook, kills at hook pause points",
         text="Histories of 1..6 steps (edit the tree; `group --cache` with some configuration) over files that share long prefixes "
              "and suffixes; after each step the same configuration runs uncached with a fresh $HOME and the report bodies must be "
-             "identical. Edits: create, modify same length, append, truncate, rename, delete-and-recreate in the same directory "
+             "identical. Edits: create, modify same length (mtime forwards, or backwards as after restoring an older copy), append, truncate, rename, delete-and-recreate in the same directory "
              "(inode reuse measured), hard-link, copy; the configuration (hash function, transform, prefix/suffix sizes, disk kind) "
-             "may switch between steps; a quarter of the steps are preceded by a cached run that is SIGKILLed at a hook pause "
+             "may switch between steps (one transform fails on about half of the files after partial output); a quarter of the steps are preceded by a cached run that is SIGKILLed at a hook pause "
              "point. Only steps with at least one cache hit (event hook) count as non-trivial.",
         note=COMMON_NOTE + "The proviso of the property (every content change also changes mtime in ms or length) is enforced by the "
              "harness.",
